@@ -310,9 +310,6 @@ pub fn run(run: &Run) {
         for st in [false, true] {
             for_type!(st, n, al(run, st, n));
             if n >= 6 {
-                if !run.thorough() && st && n % 2 == 1 && n > 7 {
-                    continue;
-                }
                 for_type!(st, n, dv(run, st, n));
             }
         }
